@@ -20,3 +20,4 @@
 (declare-fun blockdiff (Int) Int)
 ; the live state object of an address in a state database (pure observer used by the journal contracts)
 (declare-fun stobj (Int (Array (_ BitVec 64) (_ BitVec 8))) Int)
+(declare-fun refaddr (Iface) (Array (_ BitVec 64) (_ BitVec 8)))  ; address of a ContractRef (observer)
